@@ -409,7 +409,7 @@ def execute(plan):
         kind = meta["kind"]
         sigs = [("sig", None), ("sig1", None)]
         if kind != "step":
-            sigs += [("sigF", "FD"), ("sigF2", "FD2")]
+            sigs += [("sigF", "FD"), ("sigF2", "FD2"), ("sig", "FD3")]
         for sname, dname in sigs:
             s = pool[sname]
             d = None if dname is None else pool[dname]
